@@ -104,7 +104,7 @@ func hookSource(op *eng.Op, so eng.StepObs, prev []eng.LedgerRow, decl func(char
 		}
 		for _, r := range prev {
 			if r.Rev == tv {
-				all, _ := declaredHooks(r.Hooks, decl(r.ChartID))
+				all, _ := expectedHooks(r.Hooks, r.ChartID, decl)
 				return all
 			}
 		}
@@ -112,7 +112,7 @@ func hookSource(op *eng.Op, so eng.StepObs, prev []eng.LedgerRow, decl func(char
 		// a release that is already uninstalled has nothing left to delete: only its history is removed
 		if len(prev) > 0 && prev[len(prev)-1].Status != "uninstalled" {
 			last := prev[len(prev)-1]
-			all, _ := declaredHooks(last.Hooks, decl(last.ChartID))
+			all, _ := expectedHooks(last.Hooks, last.ChartID, decl)
 			return all
 		}
 	case "test":
@@ -121,7 +121,7 @@ func hookSource(op *eng.Op, so eng.StepObs, prev []eng.LedgerRow, decl func(char
 			return nil
 		}
 		last := prev[len(prev)-1]
-		all, _ := declaredHooks(last.Hooks, decl(last.ChartID))
+		all, _ := expectedHooks(last.Hooks, last.ChartID, decl)
 		in := func(l []string, n string) bool {
 			for _, x := range l {
 				if x == n {
@@ -293,6 +293,18 @@ func (w *c12Walk) phase(src []eng.Hook, ev string) (ok bool, first, last int) {
 	return true, first, last
 }
 
+// k13Charts: chart ids whose stored hooks were reduced by the known finding K13 (the final Releases.Update of a filtered
+// helm test failed): for revisions of these charts the oracle keeps to what storage holds (package level: one history
+// is judged at a time, reset by Oracle)
+var k13Charts = map[int]bool{}
+
+func expectedHooks(stored []eng.Hook, chartID int, decl func(int) []eng.Hook) (all, lost []eng.Hook) {
+	if k13Charts[chartID] {
+		return withDeclared(stored, decl(chartID)), nil
+	}
+	return declaredHooks(stored, decl(chartID))
+}
+
 func c12OracleStep(i int, op *eng.Op, so eng.StepObs, reqs []sim.Req, prev []eng.LedgerRow, decl func(int) []eng.Hook, vs *[]hx.Violation) {
 	add := func(sig, what string) {
 		*vs = append(*vs, hx.Violation{Sig: sig, What: fmt.Sprintf("step %d (%s): %s", i, op.Kind, what)})
@@ -375,10 +387,18 @@ func c12OracleStep(i int, op *eng.Op, so eng.StepObs, reqs []sim.Req, prev []eng
 	// the next operation on it selects its hooks from the stored record
 	for _, row := range so.Ledger {
 		if d := decl(row.ChartID); d != nil {
-			if _, lost := declaredHooks(row.Hooks, d); len(lost) > 0 {
+			if _, lost := expectedHooks(row.Hooks, row.ChartID, decl); len(lost) > 0 {
 				var ks []string
 				for _, x := range lost {
 					ks = append(ks, fmt.Sprintf("%s %v", x.Res.Key(), x.Events))
+				}
+				// known finding K13: execHook records the release with the hook list REDUCED by the name filter before it
+				// creates a test hook; when the final Releases.Update (which puts the skipped hooks back) fails, the reduced
+				// list stays in storage
+				if op.Kind == "test" && op.WFail != nil && len(op.TestInclude)+len(op.TestExclude) > 0 && so.SWrites > *op.WFail {
+					add("C12:skipped-hooks-lost-when-final-update-of-filtered-test-fails", fmt.Sprintf("storage write #%d of helm test failed; the stored revision %d has %d hooks, the chart declares also %s", *op.WFail, row.Rev, len(row.Hooks), strings.Join(ks, ", ")))
+					k13Charts[row.ChartID] = true
+					break
 				}
 				add("C12:stored-hooks-lost", fmt.Sprintf("after this operation the stored revision %d has %d hooks; the chart declares also %s - a later operation on the release will not run them", row.Rev, len(row.Hooks), strings.Join(ks, ", ")))
 				break
@@ -534,6 +554,7 @@ func c12OracleStep(i int, op *eng.Op, so eng.StepObs, reqs []sim.Req, prev []eng
 
 func (*c12) Oracle(ci, oi any) []hx.Violation {
 	h, o := ci.(eng.History), oi.(c12Obs)
+	k13Charts = map[int]bool{}
 	var vs []hx.Violation
 	var prev []eng.LedgerRow
 	// the hooks each chart version declared (chart ids are unique per install/upgrade of a history)
